@@ -117,6 +117,23 @@ def run(prog: Program, res: Result, tier: str) -> None:
         for f in prog.module(modname).funcs.values():
             _check_nsamples(prog, res, f)
 
+    # the containers themselves refuse data whose length differs from the header (mechanism named by the property's anchors)
+    for modname, qual, lenexpr in (("sigpyproc.block", "BaseBlock._check_input", "self.nsamples"), ("sigpyproc.timeseries", "TimeSeries._check_input", "len(self.data)")):
+        f = prog.func(modname, qual)
+        from ..cfg import always_raises as _ar
+        gs = [s for s in body_walk(f.node) if isinstance(s, ast.If) and _ar(s.body) and norm(s.test) in (f"{lenexpr} != self.header.nsamples", f"self.header.nsamples != {lenexpr}")]
+        ok = len(gs) == 1 and "ValueError" in norm(gs[0])
+        (res.ok if ok else res.bad)("R1", f, gs[0] if gs else f.node, "the container raises ValueError when the data length differs from header.nsamples" if ok else
+                                    f"{qual} no longer rejects data whose length differs from header.nsamples", key=f"{qual}:length-check", construct=qual)
+    for modname, qual, called in (("sigpyproc.block", "BaseBlock.__init__", "self._check_input()"), ("sigpyproc.timeseries", "TimeSeries.__init__", "self._check_input()")):
+        f = prog.func(modname, qual)
+        ok = called in norm(f.node)
+        (res.ok if ok else res.bad)("R1", f, f.node, "the constructor runs the consistency check" if ok else f"{qual} no longer calls _check_input",
+                                    key=f"{qual}:calls-check", construct=qual)
+    bn = prog.func("sigpyproc.block", "BaseBlock.nsamples")
+    ok = "return self.data.shape[1]" in norm(bn.node)
+    (res.ok if ok else res.bad)("R1", bn, bn.node, "block nsamples = data.shape[1]" if ok else "BaseBlock.nsamples is not data.shape[1]", key="BaseBlock.nsamples", construct="nsamples")
+
     # ---- R2 tstart follows start -------------------------------------------------------------------------
     n2 = 0
     for modname in ("sigpyproc.base", "sigpyproc.readers"):
@@ -181,7 +198,7 @@ def run(prog: Program, res: Result, tier: str) -> None:
     _header_algebra(prog, res, "R7")
 
     res.floor("R7", 9)
-    res.floor("R1", 12)
+    res.floor("R1", 17)
     res.floor("R2", 15)
     res.floor("R3", 40)
     res.floor("R4", 6)
@@ -574,6 +591,8 @@ MUTANTS = [
      "old": "TimeDelta(nsamps * self.tsamp, format=\"sec\")", "new": "TimeDelta(nsamps, format=\"sec\")"},
 ]
 MUTANTS += [
+    {"id": "c08-container-check-dropped", "file": "sigpyproc/timeseries.py", "expect": "C08.R1",
+     "old": "        if len(self.data) != self.header.nsamples:", "new": "        if len(self.data) > self.header.nsamples:"},
     {"id": "c08-chan-freqs-half", "file": "sigpyproc/header.py", "expect": "C08.R7",
      "old": "        return np.arange(self.nchans, dtype=np.float32) * self.foff + self.fch1", "new": "        return (np.arange(self.nchans, dtype=np.float32) + 0.5) * self.foff + self.fch1"},
     {"id": "c08-fcenter-no-half", "file": "sigpyproc/header.py", "expect": "C08.R7",
